@@ -1,6 +1,8 @@
 import Driver.Proto
 import Driver.RingStream
 import Driver.ProcStream
+import Driver.ThrStream
+import Driver.LogStream
 open Driver
 
 def main (args : List String) : IO UInt32 := do
@@ -9,4 +11,8 @@ def main (args : List String) : IO UInt32 := do
   | ["mon", "ring"] => runMon RingStream.monInit RingStream.monStep RingStream.monFinish; return 0
   | ["model", "processor"] => runModel ProcStream.init ProcStream.step; return 0
   | ["mon", "processor"] => runMon ProcStream.monInit ProcStream.monStep ProcStream.monFinish; return 0
+  | ["model", "throttle"] => runModel ThrStream.init ThrStream.step; return 0
+  | ["mon", "throttle"] => runMon ThrStream.monInit ThrStream.monStep ThrStream.monFinish; return 0
+  | ["model", "loglimiter"] => runModel LogStream.init LogStream.step; return 0
+  | ["mon", "loglimiter"] => runMon LogStream.monInit LogStream.monStep LogStream.monFinish; return 0
   | _ => IO.eprintln "usage: driver model|mon <stream>"; return 2
